@@ -412,7 +412,45 @@ func runC09(c *mc.Ctx) {
 			single = append(single, c09History{Cfg: cfg, Ops: []string{"addop:oF", "addhash", "reload", "add:33h"}})
 		}
 	}
-	c.Space("single insertions: config x item", int64(len(single)))
+	// EVERY hash-function count 0..64 (and 100, 255, 256, 1000) and EVERY filter size 1..300 bytes (and
+	// the neighbours of the powers of two up to 4097): an implementation that handles the functions
+	// in groups, or reduces modulo the bit count by masking when the size "is a power of two", goes
+	// wrong for a residue class of the count or a class of sizes that five chosen counts and five
+	// chosen sizes need not contain.  Histories: nothing, one insertion, two insertions (then every
+	// item of the alphabet is observed, as always).
+	{
+		var ks []uint32
+		for k := uint32(0); k <= 64; k++ {
+			ks = append(ks, k)
+		}
+		ks = append(ks, 100, 255, 256, 1000)
+		for _, k := range ks {
+			for _, sz := range []int{1, 3, 8, 64, 255} {
+				for _, t := range []uint32{0, 2147483649} {
+					cfg := c09Config{Bytes: sz, HashFuncs: k, Tweak: t, Flags: 1}
+					for _, ops := range [][]string{{}, {"add:5"}, {"add:33h", "addop:oM"}, {"addhash", "add:0"}} {
+						single = append(single, c09History{Cfg: cfg, Ops: ops})
+					}
+				}
+			}
+		}
+		var szs []int
+		for sz := 1; sz <= 300; sz++ {
+			szs = append(szs, sz)
+		}
+		for _, p2 := range []int{512, 1024, 2048, 4096} {
+			szs = append(szs, p2-1, p2, p2+1)
+		}
+		for _, sz := range szs {
+			for _, k := range []uint32{1, 3, 8} {
+				cfg := c09Config{Bytes: sz, HashFuncs: k, Tweak: 0x9e3779b9, Flags: 0}
+				for _, ops := range [][]string{{"add:5"}, {"add:33h", "addop:oM"}} {
+					single = append(single, c09History{Cfg: cfg, Ops: ops})
+				}
+			}
+		}
+	}
+	c.Space("single insertions: config x item; every hash-function count 0..64 and every filter size 1..300", int64(len(single)))
 	c.ParFor(int64(len(single)), func(w *mc.W, i int64) {
 		w.State()
 		c09EvalHistory(w, single[i])
